@@ -34,6 +34,19 @@ Theorem C06_refinement_is_inductive : forall st sp ls st', Rel st sp ->
   run st ls = Some st' -> exists sp', srun sp ls = Some sp' /\ Rel st' sp'.
 Proof. intros st sp ls st' HR Hrun. exact (sim_run ls st sp st' HR Hrun). Qed.
 
+(* Process exit and `open` on the same directory (the store has no close).  When no client
+   operation is in flight and the memtable thread is idle, `open` replays the memtable's log into an
+   sst of the tree and starts with fresh counters (KvsConc.reopen): the new state is related to the
+   SAME committed database, so every schedule of the new session again refines the atomic store
+   started from what the previous sessions committed: the theorems do not depend on an empty tree. *)
+Theorem C06_reopen_keeps_refinement : forall st sp fid fsz s0 m0 t0 st1 ls st2, Rel st sp ->
+  reopen st fid fsz s0 m0 t0 = Some st1 -> run st1 ls = Some st2 ->
+  exists sp2, srun (sreopen sp) ls = Some sp2 /\ Rel st2 sp2.
+Proof.
+  intros st sp fid fsz s0 m0 t0 st1 ls st2 HR Hre Hrun.
+  exact (sim_run ls st1 (sreopen sp) st2 (reopen_rel st sp fid fsz s0 m0 t0 st1 HR Hre) Hrun).
+Qed.
+
 (* Per-key linearizability of point reads.  A `load` that returns r was invoked (LInvR), took its
    snapshot (LSnap) and returned, in this order, with no other invocation by the thread in
    between; r is the value of the LAST committed write to the key in the database V as of the
@@ -249,3 +262,20 @@ Proof. vm_compute. reflexivity. Qed.
 
 Example ex_trace_db : dbof ex_trace = [(3, b12); (5, [([1], None)])].
 Proof. vm_compute. reflexivity. Qed.
+
+(* a related pair on EXISTING data (for C06_refinement_is_inductive / C06_reopen_keeps_refinement):
+   the store of ex_trace after exit + open: two committed batches, their entries in the tree (one
+   flushed file and the recovered log), counters 7 / 6 *)
+Example related_pair_on_existing_data :
+  exists st sp, Rel st sp /\ s_db sp = [(3, b12); (5, [([1], None)])] /\
+                file_entries (k_tree st) <> [] /\ mt_ents (mem_at st (k_cur st)) = [] /\ k_seq st = 7.
+Proof.
+  destruct (run (init 2 1 0) ex_trace) as [st1|] eqn:E1; [|vm_compute in E1; discriminate].
+  destruct (sim_run _ _ _ _ (rel_init 2 1 0 eq_refl) E1) as (sp1 & Hs & HR).
+  destruct (reopen st1 200 10 7 6 0) as [st2|] eqn:E2.
+  - exists st2, (sreopen sp1). split; [eapply reopen_rel; eauto|]. split.
+    + cbn. rewrite <- (dbof_run _ _ Hs). exact ex_trace_db.
+    + vm_compute in E1. injection E1 as <-. vm_compute in E2. injection E2 as <-.
+      split; [vm_compute; discriminate|]. split; reflexivity.
+  - exfalso. vm_compute in E1. injection E1 as <-. vm_compute in E2. discriminate.
+Qed.
